@@ -88,8 +88,8 @@ struct RbHarness : Harness {
 
     Json describe(const std::string &) const override {
         Json d = Json::obj();
-        d["rule"] = "plans = {element type, capacity, ops[]}; ops belong to four cooperative tasks (producer: put of unique non-zero values; "
-                    "consumer: get; admin: clear, override on/off; observer: size/empty/full and both iterators run to completion) interleaved by "
+        d["rule"] = "plans = {element type, capacity, octet the ring object's memory holds before init, ops[]}; ops belong to four cooperative tasks (producer: put of unique non-zero values; "
+                    "consumer: get; admin: clear, override on/off, init again on the live ring; observer: size/empty/full and both iterators run to completion) interleaved by "
                     "the seeded scheduler; a run is non-trivial when at least one put or get executed; distinct = distinct execution fingerprints";
         Json real = Json::arr();
         real.push("src/octet-ring.c (octet_ring)"); real.push("include/ufw/ring-buffer.h macro bodies instantiated for uint16_t/uint32_t/uint64_t/int");
